@@ -19,6 +19,12 @@ probes, `Proofs/LatRotatedPlanar3DCodeRank.lean`) and there are exactly `n − k
 the generic code model (`Model/Code.lean`, C02) assemble from this lattice model form a valid
 `[[n, 1]]` stabilizer code (`ValidCodeL`: all four clauses of C01, rank included) for EVERY size of
 the family.
+
+The family (`selStabs`) is defined in the Mathlib-free model file, printed by the driver op `rankfamily` and
+evaluated on the IMPLEMENTATION's parity-check matrix on every run (stream
+`lat-RotatedPlanar3DCode-rank-family`: members `n − k`, all distinct stabilizer locations, GF(2) rank
+`n − k`).  `deformation_default_axis`: the default `deformation_axis='z'` of the signature (stream cases
+with the keyword omitted).
 -/
 import PanqecVerif.Proofs.LatRotatedPlanar3DCode5
 import PanqecVerif.Proofs.LatRotatedPlanar3DCode6
@@ -97,18 +103,25 @@ theorem qubit_axis_error (Lx Ly Lz : Nat) (loc : Coord) (h : loc ∉ (lattice Lx
     qubitAxis Lx Ly Lz loc = none :=
   qubitAxis_nonqubit Lx Ly Lz loc h
 
-/-- `get_deformation` for every location, name and axis: an axis outside x/y/z or a name other than
-    `XZZX` is a `ValueError`; `XZZX` swaps X and Z exactly on the qubits whose `qubit_axis` equals
-    the deformation axis and is the identity on the other qubits (`ValueError` on a non-qubit). -/
+/-- `get_deformation` for every location, name and axis (keyword passed): an axis outside x/y/z or a
+    name other than `XZZX` is a `ValueError`; `XZZX` swaps X and Z exactly on the qubits whose
+    `qubit_axis` equals the deformation axis and is the identity on the other qubits (`ValueError` on a
+    non-qubit). -/
 theorem deformation_rule (Lx Ly Lz : Nat) (name axis : String) (loc : Coord) :
-    getDeformation Lx Ly Lz name axis loc =
+    getDeformation Lx Ly Lz name (some axis) loc =
       if axis ≠ "x" ∧ axis ≠ "y" ∧ axis ≠ "z" then none
       else if name ≠ "XZZX" then none
       else (qubitAxis Lx Ly Lz loc).map fun a => if a = axis then PauliMap.swapXZ else PauliMap.id :=
-  getDeformation_rule Lx Ly Lz name axis loc
+  getDeformation_rule Lx Ly Lz name (some axis) loc
+
+/-- the default of the signature: `get_deformation(location, name)` without `deformation_axis` is
+    `get_deformation(location, name, deformation_axis='z')` -/
+theorem deformation_default_axis (Lx Ly Lz : Nat) (name : String) (loc : Coord) :
+    getDeformation Lx Ly Lz name none loc = getDeformation Lx Ly Lz name (some "z") loc := rfl
 
 /-- consequently every deformation the class returns is a permutation of {X, Y, Z} -/
-theorem deformation_isPerm (Lx Ly Lz : Nat) (name axis : String) (loc : Coord) (m : PauliMap)
+theorem deformation_isPerm (Lx Ly Lz : Nat) (name : String) (axis : Option String) (loc : Coord)
+    (m : PauliMap)
     (h : getDeformation Lx Ly Lz name axis loc = some m) : m.isPerm = true := by
   rw [getDeformation_rule] at h
   split at h
@@ -140,8 +153,12 @@ example : ValidCodeL 14 1 (lattice 2 3 2).rowsH (lattice 2 3 2).rowsX (lattice 2
 /-- 16 generators, rank 13: three relations among the faces -/
 example : HasRank (2 * 14) (lattice 2 3 2).rowsH 13 :=
   (valid_code 2 3 2 (by decide) (by decide) (by decide)).2.2.2.rank
-example : getDeformation 2 2 2 "XZZX" "z" [2, 0, 2] = some PauliMap.swapXZ := by decide
-example : getDeformation 2 2 2 "XZZX" "x" [2, 0, 2] = some PauliMap.id := by decide
-example : getDeformation 2 2 2 "XY" "x" [2, 0, 2] = none := by decide
+example : getDeformation 2 2 2 "XZZX" (some "z") [2, 0, 2] = some PauliMap.swapXZ := by decide
+example : getDeformation 2 2 2 "XZZX" (some "x") [2, 0, 2] = some PauliMap.id := by decide
+example : getDeformation 2 2 2 "XY" (some "x") [2, 0, 2] = none := by decide
+/-- keyword omitted: the vertical qubits are deformed, the horizontal ones are not -/
+example : getDeformation 2 2 2 "XZZX" none [2, 0, 2] = some PauliMap.swapXZ := by decide
+example : getDeformation 2 2 2 "XZZX" none [1, 1, 1] = some PauliMap.id := by decide
+example : getDeformation 2 2 2 "XY" none [2, 0, 2] = none := by decide
 
 end Panqec.C01RotatedPlanar3DCode
